@@ -356,6 +356,17 @@ def capture_times(rep, repo):
             rep.violate('C04.capture', mod, f, 'eat = TMAX; lst = TMIN', f'wave_capture_{side}: eat must start at TMAX and lst at TMIN (neutral elements of min/max)', node=f)
 
 
+def depends(rep, repo):
+    """Every transition time on every signal is read from the signal memory the schedule (C07) and the memory map (C08)
+    provide and is computed with the delay slice the dataset selection (C06.dataset) picks: a change that breaks those
+    mechanisms puts another signal's transitions, or another dataset's delays, into a waveform. Rule ids keep their prefix."""
+    from checks import c06, c07, c08
+    c07.schedule_rules(rep, repo)
+    c08.map_rules(rep, repo)
+    c06.dataset_selection(rep, repo, repo.mod('wave_sim'))
+    c06.kernel_twins(rep, repo, repo.mod('wave_sim'))
+
+
 def thorough(rep, repo):
     """Thorough tier: the quick rules plus checker self-validation on the C04 slice of the mutation corpus."""
     from kvstatic import thorough as thorough_mod
